@@ -11,8 +11,8 @@ import (
 func init() {
 	register(&propDef{
 		ID:       "C06",
-		Explain:  "Decided (the at-most-once / never-after-removal / same-key clauses; the match relation itself is NOT decided): in (*branch).update every Client.Update invoke is skipped for a client already in the per-notification set and is followed by the insertion of that client into the set; subscribe.UpdateNotification hands a non-nil set to every UpdateOnce call, the same set for all updates and deletes of one notification, and Server.Update makes exactly one UpdateNotification call per leaf; the registry's clients/children maps are only touched under Match.mu (writes under the write lock), so when the remove function returns no update is in flight; the remove closure calls removeQuery with the very query/client values given to addQuery and the retained query slice is not aliased by later appends (append-ownership rule on subscribe/match); removeQuery prunes a child only when the recursive call reported it empty and reports a node empty only when it has neither clients nor children; the three index constructions (subscription, snapshot, update) all go through path.ToStrings/CompletePath. Also decided: every recursive call of (*branch).update hands on the per-notification set; the composition of every index slice is fixed (registration: ToStrings(prefix,true) [origin] ToStrings(path,false); update: prefix parameter + ToStrings(path,false), the prefix built with ToStrings(prefix,true) at every caller of UpdateNotification).",
-		NotCover: "the match relation 'offered iff compatible on the common prefix' and its containment of ctree.Query's relation (a property of values flowing through the recursive descent)",
+		Explain:  "Decided (the at-most-once / never-after-removal / same-key clauses and the per-node table of the match relation): in (*branch).update every Client.Update invoke is skipped for a client already in the per-notification set and is followed by the insertion of that client into the set; subscribe.UpdateNotification hands a non-nil set to every UpdateOnce call, the same set for all updates and deletes of one notification, and Server.Update makes exactly one UpdateNotification call per leaf; the registry's clients/children maps are only touched under Match.mu (writes under the write lock), so when the remove function returns no update is in flight; the remove closure calls removeQuery with the very query/client values given to addQuery and the retained query slice is not aliased by later appends (append-ownership rule on subscribe/match); removeQuery prunes a child only when the recursive call reported it empty and reports a node empty only when it has neither clients nor children; the three index constructions (subscription, snapshot, update) all go through path.ToStrings/CompletePath. Also decided: every recursive call of (*branch).update hands on the per-notification set; the composition of every index slice is fixed (registration: ToStrings(prefix,true) [origin] ToStrings(path,false); update: prefix parameter + ToStrings(path,false), the prefix built with ToStrings(prefix,true) at every caller of UpdateNotification). Also decided: the per-node decision table of the match descent ((*branch).update: clients of the node offered on every path; no children => no descent; exhausted path => every child with an exhausted path; glob element => every child with path[1:]; plain element => exactly the glob child and the path[0] child when present, with path[1:]; evaluated with 1 and 2 elements left) and its agreement with addQuery/removeQuery (exhausted query => this node's clients keyed by the client; otherwise children[query[0]] with query[1:]) - from which 'offered iff every common element agrees, a wildcard on either side agreeing with anything' follows by induction on the path.",
+		NotCover: "the induction itself (the per-node table is decided, its closure over whole paths is argued in DESIGN, not derived mechanically) and the containment of ctree.Query's relation in the match relation",
 		Run:      runC06,
 	})
 }
@@ -47,6 +47,7 @@ func runC06(c *Ctx) {
 	c.Rule("C06.paths-agree", "the index slices given to AddQuery and UpdateOnce are built only from path.ToStrings results (plus the subscription path's origin); the snapshot path comes from path.CompletePath")
 
 	matchDescent(c, "C06.descent")
+	c.Borrow("C09", map[string]string{"C09.query-table": "C06.query-table"}, "'every leaf a query for that path would return is also streamed' needs the query relation to be the per-node table the match descent contains")
 	isInvoke := func(ev *Ev) bool {
 		ci, ok := ev.In.(ssa.CallInstruction)
 		return ok && ci.Common().IsInvoke() && ci.Common().Method.Name() == "Update" && isNamed(ci.Common().Value.Type(), "match", "Client")
@@ -328,6 +329,33 @@ func runC06(c *Ctx) {
 			c.Check(len(carried) == 0, "C06.query-independent", fnName(addSub), "query of one subscription is independent of the others", P.Pos(ci.Pos()), "loop-carried values in the query: "+strings.Join(carried, ", "))
 		}
 		check(un, "(*match.Match).UpdateOnce", 2, updShape, "<prefix parameter> ToStrings(path, false)")
+		// every other place that offers a notification to the registry (all non-test packages outside match)
+		// must compose a full path the same way: prefix index followed by a path index
+		{
+			var fns []*ssa.Function
+			for _, mp := range P.ModPkgs() {
+				fns = append(fns, P.PkgFuncs(strings.TrimPrefix(mp, modPath+"/"))...)
+			}
+			for _, f := range fns {
+				if P.InTestFile(f) || pkgPathOf(f) == modPath+"/match" || f == un || f.Parent() == un {
+					continue
+				}
+				for _, ci := range callsIn(f) {
+					nm := calleeName(ci.Common())
+					if nm != "(*match.Match).UpdateOnce" && nm != "(*match.Match).Update" {
+						continue
+					}
+					seqs := indexSeqs(ci.Common().Args[2])
+					ok := len(seqs) > 0
+					for _, s := range seqs {
+						if strings.Join(s, " ") != "T:true T:false" {
+							ok = false
+						}
+					}
+					c.Check(ok, "C06.paths-agree", fnName(f), "index passed to "+nm, P.Pos(ci.Pos()), "composed as "+seqsString(seqs)+"; required ToStrings(prefix, true) ToStrings(path, false) - a notification is offered at the full path of each of its updates and deletes")
+				}
+			}
+		}
 		// the prefix parameter is ToStrings(notification prefix, true) at every caller
 		nCallers := 0
 		var callers []*ssa.Function
